@@ -62,6 +62,21 @@ class GenM(B.GenX):
         self.modrng, self.mixed = modrng, mixed
         self.old_models = [m for tag, m, ok in c08.corner_models() if tag == "opset13-relu"]
 
+    def make_function(self, depth=0):
+        rng = self.rng
+        if rng.random() < 0.5:
+            return super().make_function(depth)
+        from spox._function import to_function
+
+        name = f"R{self.nfun}"
+        self.nfun += 1
+
+        def body(x, y):   # body written against the oldest module, with an operator whose schema changed later
+            return [MODS[17].add(MODS[17].reduce_max(x, axes=[0], keepdims=1), y)]
+
+        f = to_function(name, "verif.fun")(body)
+        return lambda a, b: list(f(a, b))
+
     def _same2(self, v):
         t = v.type
         if isinstance(t, B.Tensor) and t.shape == (2,) and t.dtype == np.dtype(F32):
@@ -80,7 +95,11 @@ class GenM(B.GenX):
             self.count("Inline-old")
             m = self.old_models[0]
             return list(B.inline(m)(self._same2(rng.choice(pool))).values())[0]
-        if k < 0.2:
+        if k < 0.17:
+            self.count("ReduceMax(axes attr)")  # version-13 node (axes attribute): invalid unless converted when the model is >= 18
+            x = self._same2(rng.choice(pool))
+            return MODS[17].add(x, MODS[17].reduce_max(x, axes=[0], keepdims=1))
+        if k < 0.24:
             self.count("ReduceSum+Unsqueeze")  # operators whose schema changed across the shipped versions (ReduceSum/ReduceMax: 18, 20)
             x = self._same2(rng.choice(pool))
             r = self.op.reduce_max(x, keepdims=1) if rng.random() < 0.5 else self.op.reduce_min(x, keepdims=1)
@@ -122,6 +141,36 @@ def expected_imports(c: B.Case):
     for v in c.outs.values():
         visit(v)
     return dict(req)
+
+
+def stale_nodes_in_control_flow_bodies(c: B.Case, target: int):
+    """Operator applications inside If/Loop/Scan bodies whose schema at the model's default-domain version differs from the one
+    they were written for (the shape of known finding F9b: such nodes are adapted against the body's own requirements)."""
+    from spox._schemas import SCHEMAS
+
+    found, seen = [], set()
+
+    def visit(v, depth):
+        opn = v._op
+        if (id(opn), depth > 0) in seen:
+            return
+        seen.add((id(opn), depth > 0))
+        if depth > 0 and not isinstance(opn, (B.Argument, B._Initializer, B._Inline, B.Function)) and opn.op_type.domain in ("", "ai.onnx"):
+            a = SCHEMAS.get("", {}).get(opn.op_type.version, {}).get(opn.op_type.identifier)
+            b = SCHEMAS.get("", {}).get(target, {}).get(opn.op_type.identifier)
+            if opn.op_type.version != target and not (a is not None and b is not None and a == b):
+                found.append(opn.op_type.identifier)
+        for x in opn.inputs:
+            if x is not None:
+                visit(x, depth)
+        for at in opn.attrs.get_fields().values():
+            if isinstance(at, B.AttrGraph):
+                for r in at.value.requested_results.values():
+                    visit(r, depth + 1)
+
+    for v in c.outs.values():
+        visit(v, 0)
+    return found
 
 
 class Recorder:
@@ -207,8 +256,12 @@ def run(run: Run) -> int:
             continue
         if c.model_proto is None:
             msg = str(c.exc)
-            mech = "converter-name-clash" if ("_v_" in msg or "SSA" in msg) else "rank-unknown-operand" if "does not specify the shape" in msg or "shape" in msg.lower() and "infer" in msg.lower() else \
-                "body-adapted-against-body-version" if "Unrecognized attribute" in msg or "No Op registered" in msg or "opset" in msg.lower() else "other"
+            exp_imports = expected_imports(c)
+            in_body = stale_nodes_in_control_flow_bodies(c, exp_imports.get("", 14))
+            mech = "body-adapted-against-body-version" if (in_body and ("Unrecognized attribute" in msg or "No Op registered" in msg or "Bad node spec" in msg)) else None
+            if mech is None:
+                mech = "converter-name-clash" if ("_v_" in msg or "SSA" in msg) else \
+                    "rank-unknown-operand" if ("does not specify the shape" in msg or ("shape" in msg.lower() and "infer" in msg.lower())) else "other"
             run.fail("impl", f"C09/mixed-program-does-not-build/{mech}",
                      f"a program mixing shipped opset modules does not build: {c.impl}: {msg[:160]}", {"case": B.describe(c)})
             continue
@@ -243,7 +296,7 @@ def run(run: Run) -> int:
             f"let differs := fun k t => mem (fun a b => Nat.eqb (fst a) (fst b) && Nat.eqb (snd a) (snd b)) (k, t) {tbl} in "
             f"match build_checked {c.coq[0]} {c.coq[1]} with "
             f"| inl m => (show_imports (mimports m) ++ concat \"\" (map (fun f => \" \" ++ f_name f ++ show_imports (f_imports f)) (mfunctions m)) ++ \" | \" ++ "
-            f"join \",\" (map (fun ud => match ud with (NReal k, Convert s t) => \"n\" ++ decn k ++ \":\" ++ decn s ++ \">\" ++ decn t | (_, WarnForeign s t) => \"warn\" | _ => \"?\" end) "
+            f"join \",\" (map (fun ud => match ud with (NReal k, Convert s t) => (match kind (getn {c.coq[0]} k) with KInline _ _ => \"i\" | _ => \"n\" end) ++ decn k ++ \":\" ++ decn s ++ \">\" ++ decn t | (_, WarnForeign s t) => \"warn\" | _ => \"?\" end) "
             f"(decisions (with_main {c.coq[0]} None []) differs m)) ++ \" | \" ++ "
             f"join \",\" (flat_map (fun u => match u with NReal k => [decn k] | _ => [] end) (all_srcs m)) ++ \" | \" ++ show_model m) | inr e => show_err e end")
     res = [parse_coq_string(x) for x in run.coq_eval("c09", header, exprs, shard=max(1, min(40, (len(exprs) + 15) // 16)))]
@@ -278,7 +331,7 @@ def run(run: Run) -> int:
         if parts[0] != imp:
             mism += 1
             run.fail("corr", "C09/model-vs-impl/imports", f"imports differ: impl {imp} model {parts[0]}", {"case": B.describe(c)})
-        elif not set(dec.split(",")) - {""} <= set(mdec_nodes.split(",")):
+        elif set(dec.split(",")) - {""} != set(mdec_nodes.split(",")) - {""}:
             mism += 1
             run.fail("corr", "C09/model-vs-impl/decisions", f"conversion decisions differ: impl [{dec}] model [{mdec_nodes}]", {"case": B.describe(c)})
         elif not mdec and parts[2] != c.impl:
